@@ -64,7 +64,30 @@ def call_native(interp, fn, recv, args):
         if not kind_ok(k, a):
             raise interp.error("RuntimeError", "%s's parameter required a %s but received a %s." %
                                (fn.name, k, kind_name(a)))
+    if fn.stack:
+        m = _model()
+        saved = interp.frames
+        interp.frames = saved + [m.Frame(fn.name, native=True, aid=saved[-1].aid, creator=saved[-1].creator)]
+        try:
+            return fn.fn(interp, recv, args)
+        finally:
+            interp.frames = saved
     return fn.fn(interp, recv, args)
+
+
+# natives that run with a stub frame of their own (NativeMetaBuilder::with_stack in laythe_lib at the pinned commit):
+# they appear in tracebacks and backtraces as 'native:0 in <name>()'
+STACK_NATIVES = {
+    "List": {"[]", "[]=", "insert", "remove", "str", "slice", "sort"},
+    "Map": {"[]", "remove", "str"},
+    "Tuple": {"[]", "str", "slice"},
+    "String": {"[]", "slice"},
+    "Iter": {"take", "skip", "map", "filter", "reduce", "each", "all", "any", "into"},
+    "Number": {"until"},
+    "Fun": {"call"}, "Method": {"call"}, "Native": {"call"},
+    "Channel": {"close"},
+    "<global>": {"print", "assertEq", "assertNe"},
+}
 
 
 # ----------------------------------------------------------------------------- iterators
@@ -1000,6 +1023,7 @@ def install(interp):
             classes[cname] = cls
         for (mname, fn, arity, kinds) in entries:
             cls.methods[mname] = LNative(mname, fn, arity, kinds)
+            cls.methods[mname].stack = mname in STACK_NATIVES.get(cname, ())
     err = LClass("Error", obj, native_kind="error")
     err.fields = ["message", "backTrace", "inner"]
     err.methods["init"] = LNative("init", e_init, (1, 2), ("str", "any"))
@@ -1016,3 +1040,5 @@ def install(interp):
     g["assertEq"] = LNative("assertEq", n_assert_eq, (2, 2), ("any", "any"), is_method=False)
     g["assertNe"] = LNative("assertNe", n_assert_ne, (2, 2), ("any", "any"), is_method=False)
     g["exit"] = LNative("exit", n_exit, (0, 1), ("num",), is_method=False)
+    for name in STACK_NATIVES["<global>"]:
+        g[name].stack = True
